@@ -43,6 +43,8 @@ package parse
 //@   requires t != nil && tokOK(deref(t))
 //@   ensures tokOK(n) && n.errt == t.errt && 0 <= k.Off <= len(t.errt.qOrig)
 //@   ensures k.Tok == t.q[:bwEnd(t.q, 0)] && n.q == t.q[bwEnd(t.q, 0):]
+//@   ensures 0 <= bwEnd(t.q, 0) <= len(t.q) && len(k.Tok) + len(n.q) == len(t.q)
+//@   ensures len(t.q) > 0 && !unicode.IsSpace(srune(t.q, 0)) && !isOpRune(srune(t.q, 0)) ==> len(k.Tok) >= 1
 //@   ensures k.Kind == (k.Tok == "AND" ? 'A' : (k.Tok == "OR" ? 'O' : 'w'))
 //@   loop 1:
 //@     invariant 0 <= idx() <= len(t.q) && end == len(t.q) && bwEnd(t.q, 0) == bwEnd(t.q, idx())
